@@ -75,6 +75,47 @@ func runC10(c *Ctx) {
 		}
 		n++
 		okG := GuardedBy(ci, subscribed) || GuardedBy(ci, keyedMember)
+		if !okG {
+			// the gate may be a boolean helper of the same package: every `return true` of the helper is
+			// dominated by the subscribed test
+			okG = GuardedBy(ci, func(g Guard) bool {
+				call, ok := g.Cond.(*ssa.Call)
+				if !ok || !g.Pol {
+					return false
+				}
+				h := call.Call.StaticCallee()
+				if h == nil || len(h.Blocks) == 0 || h.Pkg != ci.Parent().Pkg {
+					return false
+				}
+				nTrue, okAll := 0, true
+				EachInstr(h, func(in ssa.Instruction) {
+					r, isRet := in.(*ssa.Return)
+					if !isRet {
+						return
+					}
+					vals := retVals(r)
+					if len(vals) != 1 {
+						okAll = false
+						return
+					}
+					if k, known := boolConst(vals[0]); known {
+						if k {
+							nTrue++
+							if !GuardedBy(r, subscribed) {
+								okAll = false
+							}
+						}
+						return
+					}
+					// a computed result (a && b): it must itself be the flag test or be dominated by it
+					nTrue++
+					if !GuardedBy(r, subscribed) && !flagGuardValue(w, vals[0]) {
+						okAll = false
+					}
+				})
+				return okAll && nTrue > 0
+			})
+		}
 		d := "a " + kind + " push can be queued for a channel whose subscription is not (or no longer) established: it can precede the subscribe reply/push or follow the unsubscribe reply/push"
 		if !okG {
 			d += fmt.Sprintf(" (dominating guards: %v)", GuardStrings(ci))
